@@ -260,12 +260,41 @@ def _descendants(db, chk):
     runs2 = [r for r in I.explore(f"{CS}:CallStackGraph.get_descendants", lambda I: dict({"self": Obj("self", cls=(cs, "CallStackGraph"), attrs={"nodes": nodes2}), "idx": ROOT}, **extra)) if r.raised is None]
     got2 = set(runs2[0].ret) if len(runs2) == 1 and isinstance(runs2[0].ret, (list, set)) else None
     chk.ob(rule, "host descendants are retained too", got2 is not None and {ROOT, KID} <= got2, cs.loc(gd), found=[T.show(x) for x in got2] if got2 else None, accepted=["$ROOT", "$KID"])
-    vi = H.find_match("$v = [$i for $i in set($d) if $i >= 0]", gs)
-    okv = False
-    if len(vi) == 1:
-        vname = vi[0][1]["__mv_v"]
-        okv = bool(H.find_match(f"$c.full_df.loc[{vname}].copy().sort_values('ts')", gs)) or bool(H.find_match(f"$c.full_df.loc[{vname}].sort_values('ts')", gs))
-        dsrc = [v for t, v, s_ in H.assignments(gs) if H.name_id(t) == vi[0][1]["__mv_d"]]
-        okv = okv and any(isinstance(v, ast.Call) and isinstance(v.func, ast.Attribute) and v.func.attr == "get_descendants" for v in dsrc)
-    chk.ob(rule, "the stack frame returned = rows of the full frame at the non-negative descendant ids (skip_ancestors), sorted by ts", okv if vi else None, cg.loc(gs), found=[ast.unparse(n)[:100] for n, _ in vi],
-           accepted="full_df.loc[[i for i in set(descendants) if i >= 0]].copy().sort_values('ts')")
+    # the frame handed back: evaluated with the node lookup, the stack lookup and the tree queries hooked (descendants [5, -3, 7], path to root [5, 4, -3])
+    FDs = ("param", "FD")
+
+    def hook_gs(I, name, pos, kw, node):
+        last = name.split(".")[-1]
+        if last == "get_node_attributes":
+            return {"stream": -1, "pid": T.P("PID"), "tid": T.P("TID"), "index": 5, "parent": 4}
+        if last == "get_call_stacks":
+            return [Obj("stack", attrs={"full_df": Frame(FDs)})]
+        if last == "get_descendants":
+            I.log("descendants-of", node, args=[to_term(p_) for p_ in pos])
+            return [5, -3, 7]
+        if last == "get_path_to_root":
+            return [5, 4, -3]
+        return NotImplemented
+    gsp = [p_ for p_ in H.param_names(gs) if p_ != "self"]
+    for skip, want_ids in ((True, {5, 7}), (False, {4, 5, 7})):
+        I = Interp(db, call_hook=hook_gs)
+        env = {"self": Obj("self", cls=(cg, "CallGraph"), attrs={"_cached_rank": T.P("RANK")})}
+        for p_ in gsp:
+            env[p_] = 5 if ("node" in p_ or "index" in p_ or p_ == "idx") else skip if "skip" in p_ else T.P(p_.upper())
+        try:
+            rs_ = [r_ for r_ in I.explore(f"{CG}:CallGraph.get_stack_of_node", lambda I: dict(env)) if r_.raised is None and isinstance(r_.ret, Frame)]
+        except Exception:          # noqa
+            rs_ = []
+        tag = f"skip_ancestors={skip}"
+        if len(rs_) != 1:
+            chk.ob(rule, f"[{tag}] get_stack_of_node: one path returning the stack frame", None, cg.loc(gs), found=len(rs_))
+            continue
+        Rs = rs_[0].ret
+        labels = None
+        if isinstance(Rs.rows, tuple) and Rs.rows and Rs.rows[0] == "index_in" and isinstance(Rs.rows[2], tuple) and Rs.rows[2] and Rs.rows[2][0] == "list" and all(T.is_const(x) for x in Rs.rows[2][1]):
+            labels = {x[1] for x in Rs.rows[2][1]}
+        okf = Rs.base == FDs and labels == want_ids and isinstance(Rs.order, tuple) and Rs.order[0] == "sort" and Rs.order[1] == (T.col(FDs, "ts"),) and Rs.order[2] is True
+        chk.ob(rule, f"[{tag}] the stack frame returned = rows of the full frame at the non-negative " + ("descendant ids" if skip else "ancestor and descendant ids") + ", sorted by ts", okf if labels is not None else None, cg.loc(gs),
+               found={"labels": sorted(labels) if labels is not None else T.show(Rs.rows)[:120], "order": T.show_order(Rs.order)[:80]}, accepted={"labels": sorted(want_ids), "order": "ts ascending"})
+        dq = [e_["args"] for e_ in rs_[0].events if e_["kind"] == "descendants-of"]
+        chk.ob(rule, f"[{tag}] the descendants are those of the node asked for", bool(dq) and all(a_ and a_[0] == T.C(5) for a_ in dq), cg.loc(gs), found=[[T.show(x) for x in a_] for a_ in dq], accepted="get_descendants(<the node's own id>)")
